@@ -51,6 +51,29 @@ var allServices = []svcSpec{
 	{"vnc", "vnc", 5900, false, "image=\"@TMP@/vnc.png\""},
 }
 
+// Every service can be put on a port of either transport by the configuration.  The table above has each service
+// on the transport it was written for; these entries put it on the other one (own port numbers): a datagram
+// service then gets a byte stream, a stream service single datagrams through listener.DummyUDPConn.
+var protoLike = map[string]string{}
+
+func init() {
+	for _, x := range []struct {
+		base string
+		port int
+	}{{"dns", 1053}, {"ntp", 1123}, {"snmp", 1161}, {"tftp", 1069}, {"counterstrike", 27016},
+		{"redis", 6380}, {"telnet", 2323}, {"http", 8081}, {"smtp", 2525}, {"ldap", 3389}, {"ftp", 2121}, {"ipp", 6310},
+		{"adb", 5556}, {"vnc", 5901}, {"docker", 2376}, {"elasticsearch", 9201}, {"ssh-simulator", 2022}, {"cwmp", 7548},
+		{"eos", 8889}, {"ethereum", 8546}} {
+		b := svcByKey(x.base)
+		key := x.base + "-tcp"
+		if !b.UDP {
+			key = x.base + "-udp"
+		}
+		protoLike[key] = x.base
+		allServices = append(allServices, svcSpec{key, b.Type, x.port, !b.UDP, b.Cfg})
+	}
+}
+
 func svcByKey(k string) *svcSpec {
 	for i := range allServices {
 		if allServices[i].Key == k {
@@ -86,7 +109,11 @@ func writeVNCImage(dir string) {
 func prototypes(s *svcSpec, r *Rng) [][][]byte {
 	var out [][][]byte
 	udpMaxReqV = 1 << 30 // generator knob: never inherited from whatever was generated before in this process
-	if p := protoTable[s.Key]; p != nil {
+	key := s.Key
+	if b, ok := protoLike[key]; ok {
+		key = b
+	}
+	if p := protoTable[key]; p != nil {
 		for k := 0; k < 2; k++ {
 			n := r.Range(1, 6)
 			if p.OneShot {
@@ -106,7 +133,7 @@ func prototypes(s *svcSpec, r *Rng) [][][]byte {
 			out = append(out, d)
 		}
 	}
-	switch s.Key {
+	switch key {
 	case "ftp":
 		// logged-in sessions issuing path and transfer commands (the grammar of C04 avoids them)
 		login := [][]byte{[]byte("USER anonymous\r\n"), []byte("PASS anonymous\r\n")}
